@@ -21,6 +21,7 @@ mod p10;
 mod p20;
 mod p05;
 mod p11;
+mod p16;
 // MODULES (keep this list and the two dispatch tables below in sync)
 
 use std::io::{self, BufRead, Write, BufWriter};
@@ -40,6 +41,7 @@ pub fn dispatch_exec(op: &str, a: &[i64]) -> Option<String> {
   if let Some(r) = p20::exec(op, a) { return r; }
   if let Some(r) = p05::exec(op, a) { return r; }
   if let Some(r) = p11::exec(op, a) { return r; }
+  if let Some(r) = p16::exec(op, a) { return r; }
   // DISPATCH-EXEC
   Some("bad-op".to_string())
 }
@@ -60,6 +62,7 @@ pub fn dispatch_enum(name: &str, args: &[String], w: &mut dyn Write) -> bool {
   if p20::run_enum(name, args, w) { return true; }
   if p05::run_enum(name, args, w) { return true; }
   if p11::run_enum(name, args, w) { return true; }
+  if p16::run_enum(name, args, w) { return true; }
   // DISPATCH-ENUM
   false
 }
